@@ -2,17 +2,7 @@ import Model.TrieLM
 /-! Memory built by OR-ing disjoint bit fields: every field reads back (the frame argument for any number of writes). -/
 namespace KV.TrieLM
 
-/-- a bit field: offset, width, value -/
-structure Field where
-  off : Nat
-  len : Nat
-  val : Nat
-  deriving DecidableEq, Repr
-
 def Field.Disj (a b : Field) : Prop := a.off + a.len ≤ b.off ∨ b.off + b.len ≤ a.off
-
-/-- memory obtained by OR-ing fields into `m` (what a sequence of `Write*` calls does to zero-initialised memory) -/
-def orFields (m : Nat) (fs : List Field) : Nat := fs.foldl (fun m f => m ||| (f.val <<< f.off)) m
 
 theorem testBit_orFields (fs : List Field) : ∀ m k, (orFields m fs).testBit k =
     (m.testBit k || fs.any (fun f => decide (f.off ≤ k) && f.val.testBit (k - f.off))) := by
@@ -67,5 +57,122 @@ theorem orFields_read (fs : List Field) (hd : fs.Pairwise Field.Disj) (hv : ∀ 
         · simp [hle]
   · simp only [hj, decide_false, Bool.false_and]
     exact (testBit_ge_of_lt (hv f hf) (by omega)).symm
+
+/-- read-back with a per-field hypothesis: every other field of the list is equal to `f` or disjoint from it -/
+theorem orFields_read_of (fs : List Field) (hv : ∀ g ∈ fs, g.val < 2^g.len)
+    (f : Field) (hf : f ∈ fs) (hd : ∀ g ∈ fs, g = f ∨ Field.Disj f g) : (orFields 0 fs >>> f.off) % 2^f.len = f.val := by
+  apply Nat.eq_of_testBit_eq
+  intro j
+  rw [Nat.testBit_mod_two_pow, Nat.testBit_shiftRight, testBit_orFields]
+  simp only [Nat.zero_testBit, Bool.false_or]
+  by_cases hj : j < f.len
+  · simp only [hj, decide_true, Bool.true_and]
+    cases hb : f.val.testBit j with
+    | true =>
+      rw [List.any_eq_true]
+      exact ⟨f, hf, by simp [hb]⟩
+    | false =>
+      rw [List.any_eq_false]
+      intro g hg
+      rcases hd g hg with heq | hdis
+      · subst heq; simp [hb]
+      · by_cases hle : g.off ≤ f.off + j
+        · have : g.val.testBit (f.off + j - g.off) = false := by
+            apply testBit_ge_of_lt (hv g hg)
+            rcases hdis with h | h <;> omega
+          simp [this]
+        · simp [hle]
+  · simp only [hj, decide_false, Bool.false_and]
+    exact (testBit_ge_of_lt (hv f hf) (by omega)).symm
+
+structure RegionSpec.OK (R : RegionSpec) : Prop where
+  slot_in : ∀ s, s < R.slots.length → R.slotOff s + R.slotLen s ≤ R.stride
+  slot_disj : ∀ s s', s < s' → s' < R.slots.length → R.slotOff s + R.slotLen s ≤ R.slotOff s'
+  fits : ∀ i s v, i < R.nrec → s < R.slots.length → R.val i s = some v → v < 2^(R.slotLen s)
+
+theorem RegionSpec.mem_fields (R : RegionSpec) (g : Field) :
+    g ∈ R.fields ↔ ∃ i s v, i < R.nrec ∧ s < R.slots.length ∧ R.val i s = some v ∧ g = R.fieldAt i s v := by
+  unfold RegionSpec.fields
+  simp only [List.mem_flatMap, List.mem_range, List.mem_filterMap, Option.map_eq_some_iff]
+  constructor
+  · rintro ⟨i, hi, s, hs, v, hv, rfl⟩; exact ⟨i, s, v, hi, hs, hv, rfl⟩
+  · rintro ⟨i, s, v, hi, hs, hv, rfl⟩; exact ⟨i, hi, s, hs, v, hv, rfl⟩
+
+/-- extent of a field inside its record and region -/
+theorem RegionSpec.field_extent (R : RegionSpec) (ok : R.OK) (i s v : Nat) (hi : i < R.nrec) (hs : s < R.slots.length) :
+    R.base + i * R.stride ≤ (R.fieldAt i s v).off ∧
+    (R.fieldAt i s v).off + (R.fieldAt i s v).len ≤ R.base + (i + 1) * R.stride ∧
+    R.base + (i + 1) * R.stride ≤ R.base + R.nrec * R.stride := by
+  have h1 := ok.slot_in s hs
+  have h2 : (i + 1) * R.stride ≤ R.nrec * R.stride := Nat.mul_le_mul_right _ hi
+  simp only [RegionSpec.fieldAt, Nat.succ_mul]
+  refine ⟨by omega, by omega, ?_⟩
+  rw [Nat.succ_mul] at h2; omega
+
+theorem RegionSpec.disj_same (R : RegionSpec) (ok : R.OK) (i s v i' s' v' : Nat) (hi : i < R.nrec) (hi' : i' < R.nrec)
+    (hs : s < R.slots.length) (hs' : s' < R.slots.length) (hne : i ≠ i' ∨ s ≠ s') :
+    Field.Disj (R.fieldAt i s v) (R.fieldAt i' s' v') := by
+  obtain ⟨a1, a2, _⟩ := R.field_extent ok i s v hi hs
+  obtain ⟨b1, b2, _⟩ := R.field_extent ok i' s' v' hi' hs'
+  unfold Field.Disj
+  rcases Nat.lt_trichotomy i i' with h | h | h
+  · have : (i + 1) * R.stride ≤ i' * R.stride := Nat.mul_le_mul_right _ h
+    left; omega
+  · subst h
+    have hss : s ≠ s' := by rcases hne with h | h; exact absurd rfl h; exact h
+    rcases Nat.lt_or_gt_of_ne hss with h | h
+    · left; have := ok.slot_disj s s' h hs'; simp only [RegionSpec.fieldAt]; omega
+    · right; have := ok.slot_disj s' s h hs; simp only [RegionSpec.fieldAt]; omega
+  · have : (i' + 1) * R.stride ≤ i * R.stride := Nat.mul_le_mul_right _ h
+    right; omega
+
+/-- region `R` ends before region `R'` begins -/
+def RegionSpec.Before (R R' : RegionSpec) : Prop := R.base + R.nrec * R.stride ≤ R'.base
+
+/-- **regions_read**: in a memory assembled from regions of fixed-stride records whose bit extents follow one another, every
+written slot reads back its value. -/
+theorem regions_read (Rs : List RegionSpec) (hok : ∀ R ∈ Rs, R.OK) (hord : Rs.Pairwise RegionSpec.Before)
+    (R : RegionSpec) (hR : R ∈ Rs) (i s v : Nat) (hi : i < R.nrec) (hs : s < R.slots.length) (hv : R.val i s = some v) :
+    (orFields 0 (allFields Rs) >>> (R.base + i * R.stride + R.slotOff s)) % 2^(R.slotLen s) = v := by
+  have key := orFields_read_of (allFields Rs) ?_ (R.fieldAt i s v) ?_ ?_
+  · exact key
+  · intro g hg
+    simp only [allFields, List.mem_flatMap] at hg
+    obtain ⟨R', hR', hg⟩ := hg
+    obtain ⟨i', s', v', hi', hs', hv', rfl⟩ := (R'.mem_fields g).mp hg
+    exact (hok R' hR').fits i' s' v' hi' hs' hv'
+  · simp only [allFields, List.mem_flatMap]
+    exact ⟨R, hR, (R.mem_fields _).mpr ⟨i, s, v, hi, hs, hv, rfl⟩⟩
+  · intro g hg
+    simp only [allFields, List.mem_flatMap] at hg
+    obtain ⟨R', hR', hg⟩ := hg
+    obtain ⟨i', s', v', hi', hs', hv', rfl⟩ := (R'.mem_fields g).mp hg
+    have hsym : ∀ a b : RegionSpec, (a.Before b ∨ b.Before a) → (b.Before a ∨ a.Before b) := fun a b h => Or.symm h
+    have hp : Rs.Pairwise (fun a b => a.Before b ∨ b.Before a) := hord.imp (fun h => Or.inl h)
+    rcases pairwise_mem hsym hp R hR R' hR' with e | e | e
+    · subst e
+      by_cases hsame : i = i' ∧ s = s'
+      · obtain ⟨e1, e2⟩ := hsame
+        subst e1; subst e2
+        rw [hv] at hv'
+        left; rw [Option.some.inj hv']
+      · right
+        exact R.disj_same (hok R hR) i s v i' s' v' hi hi' hs hs' (by
+          by_cases h : i = i'
+          · right; intro h2; exact hsame ⟨h, h2⟩
+          · left; exact h)
+    · right
+      obtain ⟨_, a2, a3⟩ := R.field_extent (hok R hR) i s v hi hs
+      obtain ⟨b1, _, _⟩ := R'.field_extent (hok R' hR') i' s' v' hi' hs'
+      have h2 : R'.base ≤ R'.base + i' * R'.stride := Nat.le_add_right _ _
+      unfold RegionSpec.Before at e
+      left; omega
+    · right
+      obtain ⟨a1, _, _⟩ := R.field_extent (hok R hR) i s v hi hs
+      obtain ⟨_, b2, b3⟩ := R'.field_extent (hok R' hR') i' s' v' hi' hs'
+      have h2 : R.base ≤ R.base + i * R.stride := Nat.le_add_right _ _
+      unfold RegionSpec.Before at e
+      right; omega
+
 
 end KV.TrieLM
